@@ -97,7 +97,7 @@ def handshakes(oport):
 
 
 async def main(args):
-    out = Out("C14", "c14", "stall points: a client stopped after k bytes of a valid handshake for k over the whole handshake of http / https (inside TLS) / socks5 / socks5+auth / socks4 / socks+tls / CONNECT-over-QUIC, half-done TLS handshakes, a QUIC handshake cut after its first packet, tunnels whose reader stopped while the peer blasts data; 1..many stallers; pollers on every API endpoint and one fresh tunnel per listener every 50 ms run concurrently. distinct = distinct (phase, endpoint or listener, outcome class)")
+    out = Out("C14", "c14", "stall points: a client stopped after k bytes of a valid handshake for k over the whole handshake of http / https (inside TLS) / socks5 / socks5+auth / socks4 / socks+tls / CONNECT-over-QUIC, half-done TLS handshakes, a QUIC handshake cut after its first packet, tunnels whose reader stopped while the peer blasts data, requests hanging in a connector whose upstream proxy stalls (CONNECT, SOCKS greeting, TLS handshake never answered); 1..many stallers; pollers on every API endpoint and one fresh tunnel per listener every 50 ms run concurrently. distinct = distinct (phase, endpoint or listener, outcome class)")
     rng = random.Random(args.seed)
     wd = workdir("c14")
     origin = await TcpOrigin(echo_handler, host="127.0.0.1").start()
@@ -119,8 +119,21 @@ async def main(args):
         {"name": "sockstls", "type": "socks", "bind": "127.0.0.1:%d" % P["sockstls"], "tls": tls_server()},
         {"name": "quic", "bind": "127.0.0.1:%d" % P["quic"], "tls": tls_server()},
     ]
-    rules = [{"target": "direct"}]
-    A = Proxy(args.bin, base_cfg(listeners, [{"name": "direct"}], rules, metrics_port=P["api"], access_log={"path": "access.log", "format": "json"}), "A", wd)
+    # upstream proxies that accept the TCP connection and then stall: a request routed to them hangs in the connector
+    async def stall_upstream(r, w, o, info):
+        try:
+            await r.read(65536)      # take the request (or the TLS ClientHello / SOCKS greeting) and never answer
+            await asyncio.sleep(600)
+        except Exception:
+            pass
+    stall_up = await TcpOrigin(stall_upstream, host="127.0.0.1").start()
+    rules = [{"filter": "request.target.port == 9101", "target": "hstall"}, {"filter": "request.target.port == 9102", "target": "sstall"},
+             {"filter": "request.target.port == 9103", "target": "tstall"}, {"target": "direct"}]
+    connectors = [{"name": "direct"},
+                  {"name": "hstall", "type": "http", "server": "127.0.0.1", "port": stall_up.port},
+                  {"name": "sstall", "type": "socks", "server": "127.0.0.1", "port": stall_up.port},
+                  {"name": "tstall", "type": "http", "server": "localhost", "port": stall_up.port, "tls": {"insecure": True}}]
+    A = Proxy(args.bin, base_cfg(listeners, connectors, rules, metrics_port=P["api"], access_log={"path": "access.log", "format": "json"}), "A", wd)
     qc = lambda port: [{"name": "q", "type": "quic", "server": "localhost", "port": port, "tls": tls_client(), "bind": "127.0.0.1:0"}]
     C = Proxy(args.bin, base_cfg([{"name": "http", "bind": "127.0.0.1:%d" % P["C.http"]}], qc(P["quic"]), [{"target": "q"}], metrics_port=P["C.api"]), "C", wd)
     S = Proxy(args.bin, base_cfg([{"name": "http", "bind": "127.0.0.1:%d" % P["S.http"]}], qc(P["relay"]), [{"target": "q"}], metrics_port=P["S.api"]), "S", wd)
@@ -249,6 +262,24 @@ async def main(args):
                     stall_points += 1
                 except Exception:
                     pass
+        # requests that hang inside a connector because the upstream proxy stalls (after TCP accept: CONNECT never answered,
+        # SOCKS greeting never answered, TLS handshake never answered)
+        for tport in (9101, 9102, 9103):
+            for lport, kind in ((P["http"], "http"), (P["socks"], "socks5")):
+                try:
+                    c = await open_conn("127.0.0.1", lport)
+                    if kind == "http":
+                        c.write(b"CONNECT 127.0.0.1:%d HTTP/1.1\r\nHost: x\r\n\r\n" % tport)
+                    else:
+                        c.write(bytes([5, 1, 0]))
+                        await c.drain()
+                        await c.read_exact(2, timeout=3)
+                        c.write(bytes([5, 1, 0, 1, 127, 0, 0, 1]) + tport.to_bytes(2, "big"))
+                    await c.drain()
+                    held.append(c)
+                    stall_points += 1
+                except Exception:
+                    pass
         # a QUIC handshake whose packets stop arriving (through the dropping relay)
         stalled_quic = asyncio.ensure_future(probe_via(P["S.http"], origin.port))
         stall_points += 1
@@ -323,7 +354,7 @@ async def main(args):
             pass
         PL = {k: free_port() for k in ("http", "socks", "api")}
         L = Proxy(args.bin, base_cfg([{"name": "http", "bind": "127.0.0.1:%d" % PL["http"]}, {"name": "socks", "bind": "127.0.0.1:%d" % PL["socks"]}],
-                                     [{"name": "direct"}], rules, metrics_port=PL["api"], access_log={"path": fifo, "format": "json"}), "L", wd)
+                                     [{"name": "direct"}], [{"target": "direct"}], metrics_port=PL["api"], access_log={"path": fifo, "format": "json"}), "L", wd)
         try:
             await L.start()
             n_short = 1200 if args.thorough else 400
@@ -375,6 +406,7 @@ async def main(args):
         shutil.rmtree(wd, ignore_errors=True)
         await origin.stop()
         await blaster.stop()
+        await stall_up.stop()
     out.finish()
 
 
